@@ -63,7 +63,7 @@ class Contract:
                  raises=None, modifies=(), effects=(), loops=None, locals=None, inline=False, funcs=None,
                  ghost=None, mode="prove", unroll=None, comps=None, name=None, setup=(), max_paths=None,
                  frame=None, lock=None, replay=None, timeout_ms=None, axioms=(), post_setup=(), pure_result=None, asserts=None, nonlinear=False, unreachable_ok=(),
-                 region=None, sort_facts=True, feas_timeout_ms=None):
+                 region=None, sort_facts=True, feas_timeout_ms=None, named_seqs=False):
         self.key = key
         self.prop = prop if isinstance(prop, (list, tuple)) else [prop]
         self.short = name or key.split(":", 1)[1]
@@ -95,6 +95,7 @@ class Contract:
         self.nonlinear = nonlinear
         self.region = region
         self.sort_facts = sort_facts
+        self.named_seqs = named_seqs
         self.feas_timeout_ms = feas_timeout_ms   # budget of one branch-feasibility query (unknown counts as feasible: sound)
         self.unreachable_ok = list(unreachable_ok)
         self.pure_result = pure_result
